@@ -1,6 +1,6 @@
 (* C16 — evaluators for generated correspondence cases (kernel path: gen/C16_*.v). Definitions only. *)
 From Coq Require Import QArith Qabs List Bool ZArith NArith.
-From Scenic Require Import C16.RegionAlg.
+From Scenic Require Import C16.RegionAlg C16.Project.
 Import ListNotations.
 Open Scope Q_scope.
 
@@ -18,7 +18,8 @@ Inductive pcase :=
 | CSphMem (a b c u v w : Q) (expect : bool)
 | CPointSetMem (pts : list pt) (tol : Q) (p : pt) (expect : bool)
 | CGridMem (grid : list (list Z)) (Ax Ay Bx By : Q) (sx sy : Z) (x y : Q) (expect : bool)
-| CComp (r : region) (p : pt) (expect : bool).
+| CComp (r : region) (p : pt) (expect : bool)
+| CProject (contains : bool) (ts : list Q) (impl : option Q) (tol : Q).
 
 Definition eval_case (c : pcase) : bool :=
   match c with
@@ -34,6 +35,14 @@ Definition eval_case (c : pcase) : bool :=
   | CPointSetMem pts tol p e => Bool.eqb (pointset_member pts tol p) e
   | CGridMem g Ax Ay Bx By sx sy x y e => Bool.eqb (grid_member g Ax Ay Bx By sx sy x y) e
   | CComp r p e => Bool.eqb (contains r p) e
+  | CProject c ts impl tol =>
+      match project_vector c ts, impl with
+      | Some t, Some t' =>
+          (* the same crossing, or (a tie) another crossing at the same distance *)
+          close t t' tol || (close (Qabs t) (Qabs t') tol && existsb (fun x => close x t' tol) ts)
+      | None, None => true
+      | _, _ => false
+      end
   end.
 
 (* indices of failing cases *)
